@@ -118,7 +118,6 @@ def callDefsOf (mod : Nat) : Tmpl → List (Name × SFun)
   | .for_ _ _ body => callDefsOf mod body
   | .while_ _ body => callDefsOf mod body
   | .try_ b h => callDefsOf mod b ++ callDefsOf mod h
-  | .call _ _ body => callDefsOf mod body
   | .def_ name ps fl body => [(name, ⟨ps, fl, body, .def_, mod⟩)]
   | .block name _ fl body => [(name, ⟨[], fl, body, .block, mod⟩)]
   | _ => []
@@ -334,8 +333,9 @@ def snodes (c : Cfg) : Nat → Tmpl → Env → Nat → SR
       match resolveS c env name with
       | none => ⟨.exc excName, [], cnt, env.vars⟩
       | some fn =>
+        -- `__M_writer(block() or '')`: what the block wrote, then what it returned (a buffered block's content)
         match sinvoke c n fn [] [] env [] cnt with
-        | ⟨.val _, o, c1⟩ => ⟨.normal, o, c1, env.vars⟩
+        | ⟨.val v, o, c1⟩ => ⟨.normal, o ++ v, c1, env.vars⟩
         | ⟨.exc e, o, c1⟩ => ⟨.exc e, o, c1, env.vars⟩
         | ⟨.timeout, o, c1⟩ => ⟨.timeout, o, c1, env.vars⟩
     | .call e bodyArgs body =>
